@@ -1,6 +1,267 @@
-/- Line-protocol driver for engine `value` — not built yet (stub). -/
+/- Line-protocol driver for the value model (engine `value`, property C19). -/
+import AxVerif.Model.Value
+namespace AxVerif.Value
+open AxVerif
+
+def parseDefects (flags : List String) : Defects :=
+  { blobLenOverflow := flags.contains "blobLenOverflow",
+    boolWriteWholeTail := flags.contains "boolWriteWholeTail",
+    castSaturates := flags.contains "castSaturates",
+    numericViaF64 := flags.contains "numericViaF64",
+    nanUnordered := flags.contains "nanUnordered",
+    hashRawBits := flags.contains "hashRawBits" }
+
+def i64? (s : String) : Option Int :=
+  match s.toInt? with
+  | some v => if decide (VarInt.InI64 v) then some v else none
+  | none => none
+
+def u64? (s : String) : Option Nat :=
+  match s.toNat? with
+  | some n => if n < 18446744073709551616 then some n else none
+  | none => none
+
+def ordName : Ordering → String
+  | .lt => "lt" | .eq => "eq" | .gt => "gt"
+
+def kind? (s : String) : Option Kind := Kind.all.find? (fun k => k.name == s)
+
+/-- value syntax: `n`, `b:0|1`, `i:<dec>` (Int), `I:` (BigInt), `u:` (UInt), `U:` (BigUInt), `f:<bits>`, `d:<bits>`, `x:<hex|->` -/
+def value? (s : String) : Option Value :=
+  if s = "n" then some .null else
+  match s.splitOn ":" with
+  | ["b", "0"] => some (.bool false)
+  | ["b", "1"] => some (.bool true)
+  | ["i", v] => (v.toInt?).bind fun i => if decide (Value.Wf (.int i)) then some (.int i) else none
+  | ["I", v] => (v.toInt?).bind fun i => if decide (Value.Wf (.bigint i)) then some (.bigint i) else none
+  | ["u", v] => (v.toNat?).bind fun n => if decide (Value.Wf (.uint n)) then some (.uint n) else none
+  | ["U", v] => (v.toNat?).bind fun n => if decide (Value.Wf (.biguint n)) then some (.biguint n) else none
+  | ["f", v] => (v.toNat?).bind fun n => if decide (Value.Wf (.float n)) then some (.float n) else none
+  | ["d", v] => (v.toNat?).bind fun n => if decide (Value.Wf (.double n)) then some (.double n) else none
+  | ["x", h] => (bytesOfHex h).map .blob
+  | _ => none
+
+def showValue : Value → String
+  | .null => "n"
+  | .bool b => if b then "b:1" else "b:0"
+  | .int i => s!"i:{i}"
+  | .bigint i => s!"I:{i}"
+  | .uint n => s!"u:{n}"
+  | .biguint n => s!"U:{n}"
+  | .float b => s!"f:{b}"
+  | .double b => s!"d:{b}"
+  | .blob d => s!"x:{hexOrDash d}"
+
+def cmpName : Option Ordering → String
+  | some o => ordName o
+  | none => "none"
+
+def tf (b : Bool) : String := if b then "t" else "f"
+def okFail (b : Bool) : String := if b then "ok" else "FAIL"
+
+/-- the laws of the property evaluated on the three given values with the comparison functions under test -/
+def laws (D : Defects) (vs : List Value) : String :=
+  let e := eq D
+  let c := partialCmp D
+  let h (a b : Value) : Bool := hashKey D a == hashKey D b
+  let pairs := vs.flatMap fun a => vs.map fun b => (a, b)
+  let triples := vs.flatMap fun a => vs.flatMap fun b => vs.map fun x => (a, b, x)
+  let refl := vs.all fun a => e a a
+  let sym := pairs.all fun (a, b) => e a b == e b a && c a b == (c b a).map Ordering.swap
+  let trans := triples.all fun (a, b, x) => !(e a b && e b x) || e a x
+  let ord := triples.all fun (a, b, x) =>
+    (!(c a b == some .lt && c b x == some .lt) || c a x == some .lt) &&
+    (!(c a b == some .eq) || c a x == c b x)
+  let consist := pairs.all fun (a, b) => a.cls == 0 || b.cls == 0 || ((c a b == some .eq) == e a b)
+  let total := pairs.all fun (a, b) => a.cls == 0 || a.cls != b.cls || (c a b).isSome
+  let hash := pairs.all fun (a, b) => !(e a b) || h a b
+  -- what `sort_by` needs from the ORDER BY comparator: a strict weak order
+  let sc := sortCmp D
+  let sortord := triples.all fun (a, b, x) =>
+    sc a b == (sc b a).swap &&
+    (!(sc a b == .lt && sc b x == .lt) || sc a x == .lt) &&
+    (!(sc a b == .eq && sc b x == .eq) || sc a x == .eq)
+  s!"sortord={okFail sortord} refl={okFail refl} sym={okFail sym} trans={okFail trans} ord={okFail ord} consist={okFail consist} total={okFail total} hash={okFail hash}"
+
+def allValues : List String → Option (List Value)
+  | [] => some []
+  | w :: ws => match value? w, allValues ws with
+    | some v, some r => some (v :: r)
+    | _, _ => none
+
+def allKinds : List String → Option (List Kind)
+  | [] => some []
+  | w :: ws => match kind? w, allKinds ws with
+    | some k, some r => some (k :: r)
+    | _, _ => none
+
+
+/-- `key` op: a search tuple and a stored cell of an index with the given key kinds and one BigUInt value column,
+    laid out as `TupleBuilder` does (header, one bitmap byte, keys, value), compared by `compareKeys`. -/
+def keyOp (D : Defects) (ks : List Kind) (tv cv : List Value) : String :=
+  if ks.length = 0 ∨ tv.length ≠ ks.length ∨ cv.length ≠ ks.length then "bad-op"
+  else if (tv.map Value.kind) ≠ ks ∨ (cv.map Value.kind) ≠ ks then "err build"
+  else
+    let cur := stdParams.keysOffset1
+    let pre : Bytes := List.replicate cur 0
+    let tbuf := pre ++ layoutKeys cur tv ++ List.replicate 16 0
+    let cbuf := pre ++ layoutKeys cur cv ++ List.replicate 16 0
+    let r1 := compareKeys D ks tbuf cur cbuf cur
+    let show_ (r : Except Err Ordering) : String := match r with
+      | .ok o => ordName o
+      | .error e => s!"err {e.name}"
+    -- `Btree::search`: the bare serialized key from cursor 0 (single key column only)
+    let r2 : Option (Except Err Ordering) := match ks, tv with
+      | [_], [t] => some (compareKeys D ks (layoutKeys 0 [t]) 0 cbuf cur)
+      | _, _ => none
+    match r2 with
+    | some r2 => if show_ r2 = show_ r1 then show_ r1 else s!"MODEDIFF tuple={show_ r1} bare={show_ r2}"
+    | none => show_ r1
+
+def strLt (a b : String) : Ordering := if a < b then .lt else if a = b then .eq else .gt
+
+def sortStrings (xs : List String) : List String := sortByCmp strLt xs
+
+def indexed {α : Type} (xs : List α) : List (Nat × α) := (List.range xs.length).zip xs
+
+/-- `sql` op: one table `t (x INT, v KIND)` holding the given values (row number in `x`), and a second table with
+    `v` as PRIMARY KEY receiving the non-NULL ones in the same order. -/
+def sqlOp (D : Defects) (vs : List Value) : String :=
+  let showL (xs : List String) : String := "[" ++ joinWith "," xs ++ "]"
+  let asc := sortByCmp (orderAsc D) vs
+  let desc := sortByCmp (orderDesc D) vs
+  let groups := groupCount D vs
+  let distinct := sortStrings (groups.map fun (v, _) => showValue v)
+  let group := sortStrings (groups.map fun (v, n) => s!"{showValue v}:{n}")
+  let nonNull := vs.filter (fun v => v.cls != 0)
+  let rows := indexed vs
+  match nonNull with
+  | [] => s!"order={showL (asc.map showValue)} desc={showL (desc.map showValue)} distinct={showL distinct} group={showL group}"
+  | p :: rest =>
+    let q := rest.headD p
+    -- WHERE: a NULL operand makes the predicate false
+    let sel (f : Value → Bool) : List String := (rows.filter fun (_, v) => v.cls != 0 && f v).map fun (i, _) => toString i
+    let inL := sel fun v => eq D v p || eq D v q
+    let eqL := sel fun v => eq D v p
+    let ltL := sel fun v => partialCmp D v p == some .lt
+    let geL := sel fun v => partialCmp D v p == some .gt || partialCmp D v p == some .eq
+    -- PRIMARY KEY: an insert is refused when an equal key is already there
+    let pk := ((nonNull.take 6).foldl (fun (acc : List Value × List String) v =>
+        if acc.1.any (fun w => eq D w v) then (acc.1, acc.2 ++ ["d"]) else (acc.1 ++ [v], acc.2 ++ ["o"])) ([], [])).2
+    s!"order={showL (asc.map showValue)} desc={showL (desc.map showValue)} distinct={showL distinct} group={showL group} in={showL inL} eq={showL eqL} lt={showL ltL} ge={showL geL} pk={showL pk}"
+
+def step (D : Defects) (line : String) : String :=
+  match words line with
+  | ["zz", v] => match i64? v with
+    | some v => toString (VarInt.zigzag v)
+    | none => "bad-op"
+  | ["uzz", u] => match u64? u with
+    | some u => toString (VarInt.unzigzag u)
+    | none => "bad-op"
+  | ["vi.enc", v] => match i64? v with
+    | some v =>
+      let e := VarInt.encode v
+      let rt := match VarInt.decode e with
+        | some (v', []) => if v' = v then "rt=ok" else "rt=DIFF"
+        | _ => "rt=DIFF"
+      s!"{hexOfBytes e} size={VarInt.encodedSize v} {rt}"
+    | none => "bad-op"
+  | ["vi.dec", h] => match bytesOfHex h with
+    | some bs => match VarInt.decode bs with
+      | some (v, rest) => s!"ok {v} used={bs.length - rest.length}"
+      | none => "err prefix"
+    | none => "bad-op"
+  | ["vi.read", h] => match bytesOfHex h with
+    | some bs => match VarInt.readBuf VarInt.maxLen bs with
+      | .ok p => s!"ok {hexOfBytes p}"
+      | .error e => s!"err {e.name}"
+    | none => "bad-op"
+  | ["vi.cmp", a, b] => match bytesOfHex a, bytesOfHex b with
+    | some a, some b => match VarInt.decode a, VarInt.decode b with
+      | some (x, _), some (y, _) => ordName (compare x y)
+      | _, _ => "err prefix"
+    | _, _ => "bad-op"
+  | ["blob.enc", h] => match bytesOfHex h with
+    | some d =>
+      let e := Blob.encode d
+      let rt := match Blob.decode D e with
+        | .ok (d', used, []) => if d' = d ∧ used = e.length then "rt=ok" else "rt=DIFF"
+        | _ => "rt=DIFF"
+      s!"{hexOfBytes e} {rt}"
+    | none => "bad-op"
+  | ["blob.dec", h] => match bytesOfHex h with
+    | some bs => match Blob.decode D bs with
+      | .ok (d, used, _) => s!"ok data={hexOrDash d} used={used}"
+      | .error e => s!"err {e.name}"
+    | none => "bad-op"
+  | ["blob.cmp", a, b] => match bytesOfHex a, bytesOfHex b with
+    | some a, some b =>
+      let o := Blob.cmp a b
+      s!"{ordName o} eq={o == .eq}"
+    | _, _ => "bad-op"
+  | ["ser", v] => match value? v with
+    | some v => match serialize v with
+      | .ok bs =>
+        let rt := match deserialize D v.kind bs 0 with
+          | .ok (v', c) => if v' = v ∧ c = bs.length then "rt=ok" else "rt=DIFF"
+          | .error _ => "rt=DIFF"
+        s!"ok {hexOrDash bs} {rt}"
+      | .error e => s!"err {e.name}"
+    | none => "bad-op"
+  | ["wr", v, c, extra] => match value? v, c.toNat?, extra.toNat? with
+    | some v, some c, some extra =>
+      if c > 4096 ∨ extra > 4096 then "bad-op" else
+      match serialize v with
+      | .error e => s!"err {e.name}"
+      | .ok bs =>
+        let buf : Bytes := List.replicate (alignUp c v.kind.align + bs.length + extra) 0
+        match writeTo D v buf c with
+        | .ok (some (buf', c')) =>
+          let rt := match deserialize D v.kind buf' c with
+            | .ok (v', c'') => if v' = v ∧ c'' = c' then "rt=ok" else "rt=DIFF"
+            | .error _ => "rt=DIFF"
+          s!"ok cur={c'} buf={hexOrDash buf'} {rt}"
+        | .ok none => "nofit"
+        | .error e => s!"err {e.name}"
+    | _, _, _ => "bad-op"
+  | ["de", k, c, h] => match kind? k, c.toNat?, bytesOfHex h with
+    | some k, some c, some buf =>
+      if c > buf.length then "bad-op" else
+      match deserialize D k buf c with
+      | .ok (v, c') => s!"ok {showValue v} cur={c'}"
+      | .error e => s!"err {e.name}"
+    | _, _, _ => "bad-op"
+  | ["cast", v, k] => match value? v, kind? k with
+    | some v, some k => match tryCast D v k with
+      | .ok w => s!"ok {showValue w}"
+      | .error e => s!"err {e.name}"
+    | _, _ => "bad-op"
+  | ["pair", a, b] => match value? a, value? b with
+    | some a, some b =>
+      let ha := hashKey D a
+      let hb := hashKey D b
+      s!"eq={tf (eq D a b)} cmp={cmpName (partialCmp D a b)} heq={tf (ha == hb)} sort={ordName (sortCmp D a b)} ## ha={hexOfBytes ha} hb={hexOfBytes hb}"
+    | _, _ => "bad-op"
+  | ["hash", v] => match value? v with
+    | some v => hexOfBytes (hashKey D v)
+    | none => "bad-op"
+  | ["key", ks, tv, cv] =>
+    match allKinds (ks.splitOn ","), allValues (tv.splitOn ","), allValues (cv.splitOn ",") with
+    | some ks, some tv, some cv => keyOp D ks tv cv
+    | _, _, _ => "bad-op"
+  | ["sql", k, vs] =>
+    match kind? k, allValues (vs.splitOn ",") with
+    | some k, some vs =>
+      if k == .null ∨ vs.length = 0 ∨ vs.length > 40 ∨ vs.any (fun v => v.cls != 0 && v.kind != k) then "bad-op"
+      else sqlOp D vs
+    | _, _ => "bad-op"
+  | "laws" :: ws => match allValues ws with
+    | some vs => if vs.length = 0 ∨ vs.length > 4 then "bad-op" else laws D vs
+    | none => "bad-op"
+  | _ => "bad-op"
+
+end AxVerif.Value
+
 namespace AxVerif.Drivers
-
-def value (_flags : List String) (_line : String) : String := "unimplemented"
-
+def value (flags : List String) (line : String) : String := AxVerif.Value.step (AxVerif.Value.parseDefects flags) line
 end AxVerif.Drivers
